@@ -245,9 +245,28 @@ def instances(tier, rnd):
         ["aaaa", "abbb", "cccb", "cddd"],
         ["aabb", "aabb", "ccdd", "ccdd"],
         ["aaab", "acab", "ccbb", "cddd", "dddd"],
+        # rooms that contain a full plus (a cell with all four neighbours in its own room): a T can be centred there
+        ["aaabb", "aaabb", "aaabb"],
+        ["aaab", "aaab", "aaab", "bbbb"],
+        ["aaabbb", "aaabbb", "aaabbb"],
+        ["baaab", "baaab", "baaab", "bbbbb"],
+        ["aaacc", "aaacc", "aaabb", "bbbbb"],
     ]
     yield _rows(_EX_ROOMS)           # the module's own 10x10 example, see the note above EXAMPLES
     for rows in fixed:
+        yield _rows(rows)
+    # few LARGE rooms on boards of 20-25 cells (rooms wide enough to hold a tetromino in every orientation around an inner cell)
+    for (h, w, k) in ((5, 5, 4), (4, 5, 3), (3, 6, 3), (5, 5, 3)) + (((5, 6, 4), (4, 6, 3)) if not quick else ()):
+        got = 0
+        tries = 0
+        while got < (6 if quick else 40) and tries < 400:
+            tries += 1
+            blocks = _partition(h, w, k, rnd, connected=True)
+            if min(len(b) for b in blocks) < 4:
+                continue
+            got += 1
+            yield dict(height=h, width=w, blocks=blocks)
+    for rows in (["bbbaa", "bbbaa", "bdaac", "dddac", "ddccc"], ["acccc", "acccc", "acccb", "abbbb"], ["accccb", "acccbb", "accbbb"]):
         yield _rows(rows)
     shapes = _SHAPES_QUICK if quick else _SHAPES_QUICK + _SHAPES_MORE
     want = 9 if quick else 80
